@@ -267,16 +267,18 @@ impl VerifRouter for SimNet {
 
     async fn connect(&self, from: &str, address: &str) -> saorsa_core::Result<String> {
         let id = self.by_addr.lock().unwrap().get(address).cloned();
+        let target = id.as_ref().and_then(|i| self.real.lock().unwrap().get(i).cloned());
+        let silent = target.as_ref().map(|n| n.silent.load(Ordering::SeqCst)).unwrap_or(false);
+        let ok = id.is_some() && !silent;
         self.trace.lock().unwrap().push(TraceEv { at_ms: self.now_ms(), from: from.into(), to: address.into(), is_request: false,
-            op: format!("Dial:{}", if id.is_some() { "ok" } else { "refused" }), msg_id: String::new(), delivered: id.is_some(), result: None, nodes: vec![] });
+            op: format!("Dial:{}", if ok { "ok" } else { "refused" }), msg_id: String::new(), delivered: ok, result: None, nodes: vec![] });
         let Some(id) = id else {
             return Err(transport_err(format!("connection refused: {address}")));
         };
-        let target = self.real.lock().unwrap().get(&id).cloned();
+        if silent {
+            return Err(transport_err(format!("connection timed out: {address}")));
+        }
         if let Some(node) = target {
-            if node.silent.load(Ordering::SeqCst) {
-                return Err(transport_err(format!("connection timed out: {address}")));
-            }
             let from_addr = self.real.lock().unwrap().get(from).map(|n| n.addr);
             if let Some(a) = from_addr {
                 node.transport.verif_register_incoming(from, a).await;
